@@ -598,17 +598,34 @@ def func_aliases(fn):
         for n in names:
             counts[n] = counts.get(n, 0) + 1
     params = set(A.func_params(fn))
+    if fn.args.vararg:
+        params.add(fn.args.vararg.arg)
+    if fn.args.kwarg:
+        params.add(fn.args.kwarg.arg)
     out = {}
     for st in A.walk_local(fn, include_self=False):
-        if isinstance(st, ast.Assign) and len(st.targets) == 1 and isinstance(st.targets[0], ast.Name):
-            name = st.targets[0].id
+        if not (isinstance(st, ast.Assign) and len(st.targets) == 1):
+            continue
+        tg, val = st.targets[0], st.value
+        if isinstance(tg, ast.Tuple) and isinstance(val, ast.Tuple) and len(tg.elts) == len(val.elts):
+            pairs = list(zip(tg.elts, val.elts))
+        else:
+            pairs = [(tg, val)]
+        for t, v in pairs:
+            if not isinstance(t, ast.Name):
+                continue
+            name = t.id
             if counts.get(name) != 1 or name in params:
                 continue
-            v = st.value
             e = v
-            while isinstance(e, ast.Attribute):
+            ok = isinstance(v, (ast.Attribute, ast.Subscript))
+            while ok and isinstance(e, (ast.Attribute, ast.Subscript)):
+                if isinstance(e, ast.Subscript):
+                    sl = e.slice
+                    if not (isinstance(sl, ast.Constant) or (isinstance(sl, ast.UnaryOp) and isinstance(sl.operand, ast.Constant))):
+                        ok = False
                 e = e.value
-            if not isinstance(e, ast.Name) or not isinstance(v, (ast.Attribute,)):
+            if not ok or not isinstance(e, ast.Name):
                 continue
             if counts.get(e.id, 0) > (0 if e.id in params or e.id == "self" else 1):
                 continue
